@@ -42,9 +42,9 @@ def run(tier, seed):
                 b.case((kind, compiled, "setup"), False, observed=f"raises {type(e).__name__}: {e}", inputs={"kind": kind})
                 continue
             for ln in sorted({0, 1, n - 1, n + 1, 2 * n} - {n}):
-                w = T(v.dumps())
-                setattr(w, name, (orig * 3)[:ln])
                 try:
+                    w = T(bytes((i * 11 + 3) % 251 + 1 for i in range(64)))
+                    setattr(w, name, (orig * 3)[:ln])
                     out = w.dumps()
                     ok, obs = False, f"{name} holds {ln} elements instead of {n}: dumps() returned {out.hex()}"
                 except ArraySizeError:
